@@ -43,6 +43,9 @@ pub struct CtlCase {
     /// ordinary clients that come first, one after the other: each sends these bytes (an unfinished
     /// head) and closes
     pub prelude: Vec<Vec<u8>>,
+    /// ordinary clients that come first too, send these bytes (possibly none) and then stay
+    /// connected, silent, until the conversation under test is over
+    pub prelude_open: Vec<Vec<u8>>,
     /// the client pauses for that many virtual µs once it has sent the first `offset` bytes
     pub gaps: Vec<(usize, u64)>,
     /// report the handlers' event sequence (`events=`) for the trace acceptance on `Lts.Par`
@@ -271,6 +274,7 @@ pub fn execute(c: &CtlCase, cfg: &Config) -> Outcome {
     let vanish_first = c.vanish_first;
     let vanish_data = c.vanish_data.clone();
     let prelude = c.prelude.clone();
+    let prelude_open = c.prelude_open.clone();
     let gaps = c.gaps.clone();
     EVENTS.lock().unwrap().clear();
     let (out, rep) = sched::run(cfg, move || {
@@ -292,6 +296,19 @@ pub fn execute(c: &CtlCase, cfg: &Config) -> Outcome {
             }
             sched::settle(1_000_000_000);
         }
+        let mut stalled = vec![];
+        for p in &prelude_open {
+            if let Ok(mut s) = verif_rt::net::TcpStream::connect(addr) {
+                if !p.is_empty() {
+                    let _ = s.write_all(p);
+                }
+                stalled.push(s);
+            }
+            if !p.is_empty() {
+                sched::settle(1_000_000_000);
+            }
+        }
+        let _stalled = stalled;
         let client = match verif_rt::net::TcpStream::connect(addr) {
             Ok(c) => c,
             Err(_) => {
